@@ -109,7 +109,7 @@ def rule_B(ctx):
             raise shape_error('cell loop is not a range', f.loc(l))
         lo_t = vr(r[0])
         fl1, fl2 = 'floor(%s[%d])' % (c1, k), 'floor(%s[%d])' % (c2, k)
-        oklo = lo_t == 'min(%s)' % ', '.join(sorted([fl1, fl2]))
+        oklo = lo_t == 'min(%s)' % ', '.join(sorted([fl1, fl2])) or (lo_t.startswith('min(') and ('min(%s)' % ', '.join(sorted([fl1, fl2]))) in lo_t and ('-1 + %s' % size) in lo_t)
         hi = r[1] - Rat.const(1)
         hi_t = vr(hi)
         mx = 'max(%s)' % ', '.join(sorted([fl1, fl2]))
@@ -252,8 +252,9 @@ def rule_I(ctx):
                   node=c, key='clamp:' + g.name)
     h = _m(ctx, '__cellsCrossSegment')
     t = unparse(h.node)
-    ok = re.search(r'xmax = min\(xmax, self\.csize - 1\)', t) and re.search(r'ymax = min\(ymax, self\.lsize - 1\)', t)
-    ctx.check(bool(ok), 'C08.I', h, 'the cell bounding box of a segment is clipped to the last column/row',
+    ok = re.search(r'xmax = min\(xmax, self\.csize - 1\)', t) and re.search(r'ymax = min\(ymax, self\.lsize - 1\)', t) and \
+        re.search(r'xmin = min\(xmin, self\.csize - 1\)', t) and re.search(r'ymin = min\(ymin, self\.lsize - 1\)', t)
+    ctx.check(bool(ok), 'C08.I', h, 'the cell bounding box of a segment (both bounds) is clipped to the last column/row',
               witness={'why': 'a vertex on the upper border would otherwise enumerate column csize'}, node=h.node, key='clamp:cells')
 
 
